@@ -90,6 +90,22 @@ Theorem c16_wait_blocked_while_entered : forall cf s i snap t, reachable cf s ->
 Proof. exact wait_blocked_while_entered. Qed.
 Print Assumptions c16_wait_blocked_while_entered.
 
+(* an explicit Flush is never rate limited: its RemoveAll step (always enabled once it holds pe.lock) empties the
+   container whatever the clock, earlier Flushes or the flusher did, and its next step executes exactly those
+   tasks.  (Wait has no timeout either: c16_wait_blocked_while_entered holds for every schedule, clock advances
+   of any length included.) *)
+Theorem c16_flush_takes_all : forall cf s i k s',
+  nth_error (s_threads s) i = Some (TFl k L3) -> step cf s (LT i AGo) = Some s' ->
+  c_tasks (s_cont s') = [] /\ nth_error (s_threads s') i = Some (TFl k (L4 (c_tasks (s_cont s)))).
+Proof. exact flush_takes_all. Qed.
+Print Assumptions c16_flush_takes_all.
+
+Theorem c16_flush_executes : forall cf s i k b s', b <> [] ->
+  nth_error (s_threads s) i = Some (TFl k (L4 b)) -> step cf s (LT i AGo) = Some s' ->
+  s_executed s' = s_executed s ++ [b].
+Proof. exact flush_executes. Qed.
+Print Assumptions c16_flush_executes.
+
 (* the WaitGroup counter never goes negative *)
 Theorem c16_no_panic : forall cf s, reachable cf s -> s_panicked s = false.
 Proof. exact no_panic. Qed.
